@@ -543,6 +543,10 @@ class Inliner:
             r = self._expand_lazy_next(b, t, callee, locals_, blocks)
             if r is not None:
                 return r
+        if callee is not None and callee["def"] == "core::iter::Iterator::fold":
+            r = self._expand_fold(b, t, callee, locals_, blocks)
+            if r is not None:
+                return r
         if callee is not None and callee["def"] in ("core::iter::Iterator::collect", "core::iter::Extend::extend"):
             r = self._expand_lazy_collect(b, t, callee, locals_, blocks)
             if r is not None:
@@ -953,7 +957,50 @@ class Inliner:
                 self.lazy_unexpanded.append((self._cur, b, "`%s` is given a closure with side effects" % d))
                 return
 
-    LAZY_CONSUMERS_OK = ("next", "for_each", "collect", "filter", "map", "filter_map", "inspect", "copied", "cloned", "by_ref", "fuse", "into_iter", "size_hint")
+    def _expand_fold(self, b, t, callee, locals_, blocks):
+        """`it.fold(init, f)` with a statically known, effectful closure:
+        acc = init; loop { match it.next() { Some(x) => acc = f(acc, x), None => break } }; acc"""
+        a = t["args"]
+        if len(a) != 3 or a[0].get("k") not in ("copy", "move") or a[0]["pl"]["p"] or t["dst"]["p"]:
+            return None
+        fty = self._op_ty(a[2], locals_)
+        if fty is None or fty.get("k") not in ("closure", "fndef") or not self._effectful(fty):
+            return None
+        span = {k: t.get(k) for k in ("file", "line", "exp", "macro")}
+        cleanup = blocks[b]["cleanup"]
+        unwind = t["unwind"]
+        goto_t = {"k": "goto", "target": t["target"], **span} if t["target"] is not None else {"k": "unreachable", **span}
+        nl = lambda ty: (locals_.append({"ty": ty, "name": None}), len(locals_) - 1)[1]
+        it = a[0]["pl"]["l"]
+        acc = nl(locals_[t["dst"]["l"]]["ty"])
+        x = nl(dict(self.OPT_TY))
+        dl = nl({"s": "isize", "k": "int", "hp": False, "nd": False, "dp": 0})
+        pl = nl(dict(self.UNK_TY))
+        tl = nl({"s": "(?, ?)", "k": "tuple", "hp": False, "nd": False, "dp": 0})
+        fl = nl(fty)
+        frl = nl({"s": "&mut ?", "k": "refmut", "hp": False, "nd": False, "dp": 0})
+        res = nl(locals_[t["dst"]["l"]]["ty"])
+        n0 = len(blocks)
+        hdr, sw, body, back, done = n0, n0 + 1, n0 + 2, n0 + 3, n0 + 4
+        blocks.append(self._next_on(it, x, sw, unwind, cleanup, span, locals_))
+        blocks.append({"cleanup": cleanup, "stmts": [{"k": "assign", "dst": {"l": dl, "p": []}, "rv": {"k": "discr", "pl": {"l": x, "p": []}}, **span}],
+                       "term": {"k": "switch", "discr": {"k": "move", "pl": {"l": dl, "p": []}}, "targets": [["0", done], ["1", body]], "otherwise": done, **span}})
+        blocks.append({"cleanup": cleanup, "stmts": [
+            {"k": "assign", "dst": {"l": pl, "p": []}, "rv": {"k": "use", "op": {"k": "move", "pl": {"l": x, "p": [{"dc": "Some", "vi": 1}, {"f": 0, "n": "0", "of": ""}]}}}, **span},
+            {"k": "assign", "dst": {"l": tl, "p": []}, "rv": {"k": "agg", "ak": "tuple", "name": "", "variant": "", "vidx": 0, "fields": [], "ops": [{"k": "move", "pl": {"l": acc, "p": []}}, {"k": "move", "pl": {"l": pl, "p": []}}]}, **span},
+            {"k": "assign", "dst": {"l": frl, "p": []}, "rv": {"k": "ref", "mut": True, "pl": {"l": fl, "p": []}}, **span}],
+            "term": {"k": "call", "callee": {"def": "core::ops::FnMut::call_mut", "full": "core::ops::FnMut::call_mut", "crate": "core", "args": [], "targs": [], "local": False, "trait": "core::ops::FnMut"},
+                     "fnop": {"k": "const", "ty": self.UNK_TY, "desc": "call_mut"}, "args": [{"k": "move", "pl": {"l": frl, "p": []}}, {"k": "move", "pl": {"l": tl, "p": []}}],
+                     "argtys": [fty, {"s": "(?, ?)", "k": "tuple"}], "dst": {"l": res, "p": []}, "target": back, "unwind": unwind, **span}})
+        blocks.append({"cleanup": cleanup, "stmts": [{"k": "assign", "dst": {"l": acc, "p": []}, "rv": {"k": "use", "op": {"k": "move", "pl": {"l": res, "p": []}}}, **span}],
+                       "term": {"k": "goto", "target": hdr, **span}})
+        blocks.append({"cleanup": cleanup, "stmts": [{"k": "assign", "dst": copy.deepcopy(t["dst"]), "rv": {"k": "use", "op": {"k": "move", "pl": {"l": acc, "p": []}}}, **span}], "term": dict(goto_t)})
+        blocks[b]["stmts"].append({"k": "assign", "dst": {"l": acc, "p": []}, "rv": {"k": "use", "op": copy.deepcopy(a[1])}, **span})
+        blocks[b]["stmts"].append({"k": "assign", "dst": {"l": fl, "p": []}, "rv": {"k": "use", "op": copy.deepcopy(a[2])}, **span})
+        blocks[b]["term"] = {"k": "goto", "target": hdr, **span, "adaptor": "fold"}
+        return [hdr, sw, body, back, done]
+
+    LAZY_CONSUMERS_OK = ("next", "filter", "map", "filter_map", "inspect", "copied", "cloned", "by_ref", "fuse", "into_iter", "size_hint")
 
     def _note_unexpanded_consumer(self, b, t, callee, locals_, blocks):
         """Any other consumer of a pipeline with an effectful closure runs that closure out of sight: record it (no verdict is possible)."""
